@@ -382,6 +382,11 @@ func (hp *HTTPProxy) pacProxy(r *http.Request) (*url.URL, error) {
 	if err != nil {
 		return nil, err
 	}
+	// Only HTTP(S) and SOCKS5 proxies can be used, fail instead of treating
+	// a SOCKS4 proxy as if it was an HTTP proxy.
+	if p.Mode == pac.SOCKS || p.Mode == pac.SOCKS4 {
+		return nil, fmt.Errorf("unsupported PAC proxy type %s", p.Mode)
+	}
 
 	proxyURL := p.URL()
 
